@@ -254,7 +254,23 @@ func (e *StringExpr) Check(ctx *CheckCtx) error {
 	return nil
 }
 
+// resolveFieldName turns the bare name of a select field into a reference
+// to that field, as the binary operators and the function calls do for
+// their operands
+func resolveFieldName(expr Expression, ctx *CheckCtx) Expression {
+	if name, ok := expr.(*NameExpr); ok {
+		if nexpr, have := ctx.GetNamedExpr(name.Data); have {
+			return &FieldReferenceExpr{
+				Name:      name,
+				FieldExpr: nexpr,
+			}
+		}
+	}
+	return expr
+}
+
 func (e *NotExpr) Check(ctx *CheckCtx) error {
+	e.Right = resolveFieldName(e.Right, ctx)
 	if err := e.Right.Check(ctx); err != nil {
 		return err
 	}
@@ -316,7 +332,9 @@ func (e *ListExpr) Check(ctx *CheckCtx) error {
 	if len(e.List) == 0 {
 		return NewSyntaxError(e.GetPos(), "Empty list")
 	}
-	for _, item := range e.List {
+	for i, item := range e.List {
+		item = resolveFieldName(item, ctx)
+		e.List[i] = item
 		if err := item.Check(ctx); err != nil {
 			return err
 		}
